@@ -71,5 +71,10 @@ Pred == LET r == ParseText(Text) IN r[1]
 
 \* the exact diagnosis (module Diag): which error, where; only the class and the fields are exported, not the tree
 DiagOf == LET d == DiagText(Text) IN IF d[1] = "ok" THEN <<"ok">> ELSE d
+\* the two readings of the specification agree on what is accepted and on the tree (Diag refines the order of errors only)
+DiagAgreesWithParse == IsCase => LET d == DiagText(Text)  q == ParseText(Text) IN
+                          /\ (d[1] = "ok") = (q[1] = "ok")
+                          /\ (d[1] = "ok" => d = q)
+                          /\ (d[1] \in {"unknown", "argc"} => q[1] \in {d[1], "syntax", "token"})
 Export == PrintT(ToJson(IF IsCase THEN [k |-> "case", text |-> Text, pred |-> Pred, diag |-> DiagOf] ELSE [k |-> "partial"]))
 =============================================================================
